@@ -710,7 +710,10 @@ fn run_program(seed: u64, hid: u64, maxops: usize) {
 thread_local! {
     static ZDROPS: Cell<u64> = Cell::new(0);
 }
+// (over-aligned on purpose: a zero-sized type may demand an alignment, and pointers that merely count
+// zero-sized elements are not aligned for it)
 #[derive(PartialEq, Debug)]
+#[repr(align(16))]
 struct Zt;
 impl Drop for Zt {
     fn drop(&mut self) {
